@@ -35,6 +35,7 @@ package rw
 import (
 	"context"
 	"fmt"
+	grafanaregexp "github.com/grafana/regexp"
 	"os"
 	"path/filepath"
 	"regexp"
@@ -335,6 +336,34 @@ type c08Finding struct {
 	pair      string
 }
 
+// c08EngineItselfDiffers: for one of the sources, github.com/grafana/regexp (the
+// engine zoekt compiles its regexps with) returns exactly b on text while Go's regexp
+// returns something else for the same source — the disagreement is inside the
+// dependency and zoekt adds nothing to it.
+func c08EngineItselfDiffers(srcs []string, text string, b []kit.IV) bool {
+	for _, src := range srcs {
+		g, err := grafanaregexp.Compile("(?i)" + src)
+		if err != nil {
+			continue
+		}
+		r, err := regexp.Compile("(?i)" + src)
+		if err != nil {
+			continue
+		}
+		var gi, ri []kit.IV
+		for _, l := range g.FindAllStringIndex(text, -1) {
+			gi = append(gi, kit.IV{S: l[0], E: l[1]})
+		}
+		for _, l := range r.FindAllStringIndex(text, -1) {
+			ri = append(ri, kit.IV{S: l[0], E: l[1]})
+		}
+		if c08SameIVs(b, gi) && !c08SameIVs(gi, ri) {
+			return true
+		}
+	}
+	return false
+}
+
 func c08Reference(p, text string) []kit.IV {
 	re := regexp.MustCompile("(?i)" + regexp.QuoteMeta(p))
 	var out []kit.IV
@@ -428,10 +457,14 @@ func c08PrefixWidthRule(p, text string) []kit.IV {
 
 // c08Classify names the disagreement between the substring ranges a and the regexp
 // ranges b on one text: kind, the rune relation class (root cause), the runes involved.
-func c08Classify(p, text string, a, b, ref []kit.IV) (kind, class string, pr, cr rune) {
+func c08Classify(p, text string, a, b, ref []kit.IV, srcs []string) (kind, class string, pr, cr rune) {
 	// root cause "regexp-literal-prefix-byte-width": the regexp form returns exactly
-	// what the prefix-width rule predicts, and that is not what (?i) means.
-	if !c08SameIVs(b, ref) && c08SameIVs(b, c08PrefixWidthRule(p, text)) {
+	// what the prefix-width rule predicts, and that is not what (?i) means. The rule
+	// models a regexp that is one folded literal; when the engine keeps threads alive
+	// across prefix jumps it finds more than the rule says. The engine itself is the
+	// exact witness then: zoekt's regexp form returns precisely what grafana/regexp
+	// returns for the same source and text, and Go's regexp disagrees with it.
+	if !c08SameIVs(b, ref) && (c08SameIVs(b, c08PrefixWidthRule(p, text)) || c08EngineItselfDiffers(srcs, text, b)) {
 		loc, _ := c08FirstDiff(b, ref)
 		_, pr, cr = c08Decisive(p, text, loc.S)
 		// the culprit is the first aligned rune whose width differs from its folded form
@@ -529,7 +562,11 @@ func (w *c08World) compare(rec *kit.Rec, p, scope string, forms []string) (out [
 			}
 			text := w.text[scope][n]
 			ref := c08Reference(p, text)
-			kind, class, pr, cr := c08Classify(p, text, a, b, ref)
+			srcs := []string{regexp.QuoteMeta(p)}
+			if rq, isRe := q.(*query.Regexp); isRe {
+				srcs = append(srcs, rq.Regexp.String())
+			}
+			kind, class, pr, cr := c08Classify(p, text, a, b, ref, srcs)
 			family := "fold"
 			if scope == "content" && kind == "substring-misses" {
 				// not a folding matter: the occurrence lies more than 300 bytes behind the
@@ -717,7 +754,7 @@ func c08Exhaustive(rec *kit.Rec, u *c08Universe) {
 	}
 	rec.Note("exhaustive_single_rune_subspace", map[string]any{
 		"exhaustive": true, "runes_covered": len(u.runes), "orbit_size_histogram": fmt.Sprint(orbitSizes),
-		"definition": "every rune with SimpleFold(r) != r or ToLower/ToUpper/ToTitle(r) != r, as pattern rune at every position of the shapes r.. .r. ..r r....... .......r (content and name), r (name), ra (content), against every partner rune (SimpleFold orbit, To* images, symmetric closure) at that position, in file content and in file name",
+		"definition":             "every rune with SimpleFold(r) != r or ToLower/ToUpper/ToTitle(r) != r, as pattern rune at every position of the shapes r.. .r. ..r r....... .......r (content and name), r (name), ra (content), against every partner rune (SimpleFold orbit, To* images, symmetric closure) at that position, in file content and in file name",
 		"disagreeing_rune_pairs": pl,
 	})
 }
